@@ -160,6 +160,7 @@ harnesses! {
     e2n_c05_gate [native 0] => e2n::c05_gate;
     e2n_c07_min_ada [native 0] => e2n::c07_min_ada;
     e2n_c19_collateral [native 0] => e2n::c19_collateral;
+    e2n_c18_cert_signers [native 0] => e2n::c18_cert_signers;
     e2n_builder_battery [native 0] => battery::builder_battery;
     c11_enc_base [stub 4] => c11::enc_base;
     c11_enc_enterprise [stub 4] => c11::enc_enterprise;
